@@ -27,6 +27,7 @@ var c13FlagCombos = [][]string{
 	{"-optimize-grammar", "-alternate-entrypoints", "Nope"}, {"-alternate-entrypoints", "R0,R1"}, {"-cache", "-optimize-grammar"},
 	{"-optimize-grammar", "-optimize-parser", "-optimize-basic-latin", "-support-left-recursion", "-nolint"}, {"-x", "-optimize-grammar"},
 	{"-no-recover", "-optimize-grammar"}, {"-support-left-recursion", "-cache"},
+	{"-alternate-entrypoints", "Nope,R1"}, {"-alternate-entrypoints", "R1,Nope,R0"}, {"-alternate-entrypoints", "Nope", "-alternate-entrypoints", "R1"}, {"-optimize-grammar", "-alternate-entrypoints", "R0", "-alternate-entrypoints", "R1"},
 }
 
 var tokRe = regexp.MustCompile(`[\pL_][\pL\p{Nd}_]*|"(?:[^"\\]|\\.)*"|'(?:[^'\\]|\\.)*'|\[(?:[^\]\\]|\\.)*\]|//\{|<-|\s+|.`)
@@ -86,7 +87,10 @@ func C13(c *Ctx) {
 		kind  string
 	}
 	var bases []string
-	plain := func(g *gast.Grammar) string { g.Finalize(); return gast.Print(g, gast.PrintOpts{Pkg: "p", Plain: true}) }
+	plain := func(g *gast.Grammar) string {
+		g.Finalize()
+		return gast.Print(g, gast.PrintOpts{Pkg: "p", Plain: true})
+	}
 	profs := []*gast.Profile{pegProfile(), stateProfile(), throwProfile(), optProfile()}
 	nb := c.N(300, 3000)
 	for i := 0; i < nb; i++ {
